@@ -199,7 +199,8 @@ theorem alignRight_starting_triv (htriv : ∀ s, cx.ends s = List.range' 1 s.len
 
 theorem alignLeft_triv (htriv : ∀ s, cx.ends s = List.range' 1 s.length) (s : List α) (w : Int) :
     alignLeft cx s w = Spec.alignLeft ⟨cx.isSpace, cx.sp, cx.hy⟩ w s := by
-  unfold alignLeft
+  simp only [alignLeft_eq_core]
+  unfold alignLeftCore
   dsimp only
   rw [alignLeft_ending_triv cx htriv]
   simp only [gLen_triv cx htriv, gRepeat_single, padAmount]
@@ -207,7 +208,8 @@ theorem alignLeft_triv (htriv : ∀ s, cx.ends s = List.range' 1 s.length) (s : 
 
 theorem alignRight_triv (htriv : ∀ s, cx.ends s = List.range' 1 s.length) (s : List α) (w : Int) :
     alignRight cx s w = Spec.alignRight ⟨cx.isSpace, cx.sp, cx.hy⟩ w s := by
-  unfold alignRight
+  simp only [alignRight_eq_core]
+  unfold alignRightCore
   simp only [alignRight_starting_triv cx htriv, gLen_triv cx htriv, gRepeat_single, padAmount]
   rfl
 
@@ -261,7 +263,8 @@ theorem alignCenter_mid_triv (htriv : ∀ s, cx.ends s = List.range' 1 s.length)
 
 theorem alignCenter_triv (htriv : ∀ s, cx.ends s = List.range' 1 s.length) (s : List α) (w : Int) :
     alignCenter cx s w = Spec.alignCenter ⟨cx.isSpace, cx.sp, cx.hy⟩ w s := by
-  unfold alignCenter
+  simp only [alignCenter_eq_core]
+  unfold alignCenterCore
   dsimp only
   rw [alignCenter_mid_triv cx htriv]
   simp only [gLen_triv cx htriv, gRepeat_single]
